@@ -174,7 +174,7 @@ package ast
 // ---- C06/C01: the local name of a task is its name without the namespace prefix ------------------------
 //@ func (*Task).LocalName
 //@   pure
-//@   ensures result == strTrimPrefix(strTrimPrefix(t.Task, t.Namespace), ":")                       [C06,C01,C07]
+//@   ensures result == strTrimPrefix(strTrimPrefix(t.Task, t.Namespace), ":")                       [C06,C01,C07,C02]
 
 // ---- C08 / C09 / C10: merging an included Taskfile's tasks (the body of the loop in Tasks.Merge) ----------
 // dupFree: t1.Get(taskName) was asked and said "absent"; excluded: the exclude list contains the name;
